@@ -93,8 +93,16 @@ pub enum Variant {
     UnknownEntity,
     SysUserAuthEntity,
     SysRightEntity,
+    /// typed fields holding a value of another JSON type (every row is otherwise valid and validly signed)
+    FloatInIntegerField,
+    StringInIntegerField,
+    BooleanInFloatField,
+    StringInBooleanField,
+    NullInRequiredField,
+    /// conforming: a Float field may hold a JSON integer (what a local write with an integer parameter stores)
+    IntegerInFloatField,
 }
-const VARIANTS: [Variant; 11] = [
+const VARIANTS: [Variant; 17] = [
     Variant::Plain,
     Variant::TamperedJson,
     Variant::SignatureOfAnotherRow,
@@ -106,6 +114,12 @@ const VARIANTS: [Variant; 11] = [
     Variant::UnknownEntity,
     Variant::SysUserAuthEntity,
     Variant::SysRightEntity,
+    Variant::FloatInIntegerField,
+    Variant::StringInIntegerField,
+    Variant::BooleanInFloatField,
+    Variant::StringInBooleanField,
+    Variant::NullInRequiredField,
+    Variant::IntegerInFloatField,
 ];
 
 #[derive(Clone, Debug)]
@@ -342,6 +356,12 @@ pub async fn run_case(w: &World, c: &Case, out: &mut Outcome, verbose: bool) -> 
         Variant::MissingRequiredField => (u.p_short.clone(), "ns.P", json!({}).to_string()),
         Variant::WrongFieldType => (u.p_short.clone(), "ns.P", json!({ u.p_name.clone(): 5 }).to_string()),
         Variant::NonObjectJson => (u.p_short.clone(), "ns.P", "[1]".to_string()),
+        Variant::FloatInIntegerField => (u.p_short.clone(), "ns.P", json!({ u.p_name.clone(): "forged", u.p_n.clone(): 1.5 }).to_string()),
+        Variant::StringInIntegerField => (u.p_short.clone(), "ns.P", json!({ u.p_name.clone(): "forged", u.p_n.clone(): "5" }).to_string()),
+        Variant::BooleanInFloatField => (u.p_short.clone(), "ns.P", json!({ u.p_name.clone(): "forged", u.p_f.clone(): true }).to_string()),
+        Variant::StringInBooleanField => (u.p_short.clone(), "ns.P", json!({ u.p_name.clone(): "forged", u.p_b.clone(): "true" }).to_string()),
+        Variant::NullInRequiredField => (u.p_short.clone(), "ns.P", json!({ u.p_name.clone(): Value::Null }).to_string()),
+        Variant::IntegerInFloatField => (u.p_short.clone(), "ns.P", json!({ u.p_name.clone(): "forged", u.p_f.clone(): 70 }).to_string()),
         Variant::Oversized => (u.p_short.clone(), "ns.P", pj(&"z".repeat(300 * 1024))),
         Variant::UnknownEntity => ("99.99".to_string(), "?", pj("forged")),
         Variant::SysUserAuthEntity => ("0.2".to_string(), "sys.UserAuth", json!({"32": b64(&key(author)), "33": true}).to_string()),
@@ -353,7 +373,16 @@ pub async fn run_case(w: &World, c: &Case, out: &mut Outcome, verbose: bool) -> 
     };
     let model_ok = !matches!(
         c.variant,
-        Variant::MissingRequiredField | Variant::WrongFieldType | Variant::NonObjectJson | Variant::Oversized | Variant::UnknownEntity
+        Variant::MissingRequiredField
+            | Variant::WrongFieldType
+            | Variant::NonObjectJson
+            | Variant::Oversized
+            | Variant::UnknownEntity
+            | Variant::FloatInIntegerField
+            | Variant::StringInIntegerField
+            | Variant::BooleanInFloatField
+            | Variant::StringInBooleanField
+            | Variant::NullInRequiredField
     );
     let sys_entity = matches!(c.variant, Variant::SysUserAuthEntity | Variant::SysRightEntity);
     let integrity_ok = !matches!(c.variant, Variant::TamperedJson | Variant::SignatureOfAnotherRow | Variant::ShortSignature | Variant::NonObjectJson);
